@@ -143,7 +143,7 @@ impl TxnCoordinator {
 //@@ fn file=fe2o3-amqp/src/transaction/coordinator.rs impl=`impl TxnCoordinator` name=on_discharge
 //@@ subst `super::session::rollback_transaction(self.inner.session_control(), txn_id)` => `session::rollback_transaction(self.inner.session_control(), txn_id)` rule=R11
 //@@ subst `super::session::commit_transaction(self.inner.session_control(), txn_id)` => `session::commit_transaction(self.inner.session_control(), txn_id)` rule=R11
-//@@ subst `.map_err(Into::into)` => `.map_err(|e: DischargeError| -> (o: CoordinatorError) ensures o == e.conv() { e.err_into() })` rule=R17
+//@@ subst `.map_err(Into::into)` => `.map_err(|e: DischargeError| -> (o: CoordinatorError) ensures o == e.conv() { e.err_into() })` rule=R17 unless `\.map_err\(`
 //@@ spec
     ensures
         final(self).inner.disposed == old(self).inner.disposed,
